@@ -192,12 +192,23 @@ def make_lookup(main_text, inc_text, base_text, **kw):
     return lk
 
 
-def scenario(doc, incdoc, use_base, boom_mode, res, rc, handler_desc):
-    """render doc (armed) under Mako and under the model; then the no-handler extras"""
+def scenario(doc, incdoc, use_base, boom_mode, res, rc, handler_desc, base_exc=False):
+    """render doc (armed) under Mako and under the model; then the no-handler extras.  base_exc: the exception raised
+    is a BaseException that is not an Exception (the generated handlers then read `% except BaseException`)"""
     rt = _st["runtime"]
     b = _st["builtins"]
     _st["n"] += 1
-    boom = tdoc.Boom("boom#%d" % _st["n"])
+    boom = (tdoc.BoomBase if base_exc else tdoc.Boom)("boom#%d" % _st["n"])
+    tdoc.EXCEPT_CLAUSE = "BaseException" if base_exc else "Exception"
+    try:
+        _scenario(doc, incdoc, use_base, boom_mode, res, rc, handler_desc + ("; the exception is a BaseException" if base_exc else ""), boom, base_exc)
+    finally:
+        tdoc.EXCEPT_CLAUSE = "Exception"
+
+
+def _scenario(doc, incdoc, use_base, boom_mode, res, rc, handler_desc, boom, base_exc):
+    rt = _st["runtime"]
+    b = _st["builtins"]
 
     state = {"armed": True}
 
@@ -249,7 +260,7 @@ def scenario(doc, incdoc, use_base, boom_mode, res, rc, handler_desc):
         try:
             with mon:
                 got = ("out", t.render_unicode(**ctx))
-        except Exception as e:
+        except (Exception, tdoc.BoomBase) as e:
             got = ("exc", e)
         res.count("frames_checked", mon.frames)
         for p in mon.problems:
@@ -292,7 +303,7 @@ def scenario(doc, incdoc, use_base, boom_mode, res, rc, handler_desc):
         b._verif_boom = None
         try:
             got2 = ("out", t.render_unicode(**dict(ctx, armed=False)))
-        except Exception as e:
+        except (Exception, tdoc.BoomBase) as e:
             got2 = ("exc", e)
         state["armed"] = True
         b._verif_boom = (boom_mode, boom) if boom_mode else None
@@ -308,11 +319,11 @@ def scenario(doc, incdoc, use_base, boom_mode, res, rc, handler_desc):
             return
         try:
             got3 = ("out", t.render_unicode(**ctx))
-        except Exception as e:
+        except (Exception, tdoc.BoomBase) as e:
             got3 = ("exc", e)
         if c05.short(got3) != c05.short(exp3):
             res.violate("third-render-differs", "%s\nthird render (armed again) gave %r, expected %r" % (what, c05.short(got3), c05.short(exp3)), replay_case=rc)
-        if run_extras:
+        if run_extras and not base_exc:
             # last, because these renders use other lookups whose templates share the cache id of `t`
             unhandled_extras(lk, t, ctx, m1, exp, boom, res, what, rc, main_text, inc_text, base_text, model)
     finally:
@@ -502,8 +513,11 @@ def run_doc_case(case, res):
         use_base = r.random() < 0.3
         # raise points inside the included template too
         allv = list(variants(doc))
-        for desc, d2, mode in allv:
+        for vi, (desc, d2, mode) in enumerate(allv):
             scenario(d2, incdoc, use_base, mode, res, {"kind": "one", "doc": d2, "inc": incdoc, "base": use_base, "mode": mode, "desc": desc}, desc)
+            if mode is None and vi % 6 == 0:
+                res.count("base_exception_scenarios")
+                scenario(d2, incdoc, use_base, mode, res, {"kind": "one", "doc": d2, "inc": incdoc, "base": use_base, "mode": mode, "desc": desc, "base_exc": True}, desc, base_exc=True)
         for desc, i2, mode in variants(incdoc):
             if mode or "ancestor" in desc:
                 continue
@@ -523,5 +537,5 @@ def run_case(case):
     if case["kind"] == "docs":
         run_doc_case(case, res)
     elif case["kind"] == "one":
-        scenario(case["doc"], case["inc"], case["base"], case["mode"], res, case, case["desc"])
+        scenario(case["doc"], case["inc"], case["base"], case["mode"], res, case, case["desc"], base_exc=case.get("base_exc", False))
     return res
